@@ -63,13 +63,13 @@ def split_ticks(events):
     return pre, ticks
 
 
-def check(config, events, live=None, nticks=None, identity=True, excused=None):
+def check(config, events, live=None, nticks=None, identity=True, excused=None, disabled=None):
     """-> (violations [(prop, rule, disc, detail)], stats dict).
     live: {ruleset name: [set(cgroup rel) per tick]} for ruleset-cgroup rulesets.
     identity=False: the object-identity clauses of C11 are not evaluated (and cannot end the judging of an instance), so that the
     pause / resume clauses of C05 / C06 are still judged per matching cgroup when a build swaps the objects behind its back."""
     V = []
-    stats = {"excused_skips": 0, "chain_starts": 0, "no_fire_ticks": 0, "resumes": 0, "stops": 0, "pause_blocked": 0,
+    stats = {"disabled_ticks": 0, "inst_dropped_while_disabled": 0, "excused_skips": 0, "chain_starts": 0, "no_fire_ticks": 0, "resumes": 0, "stops": 0, "pause_blocked": 0,
              "async": 0, "det_runs": 0, "act_runs": 0, "inst_created": 0, "inst_dropped": 0,
              "ticks": 0, "boundary_ticks": 0}
     rulesets = [RS(r) for r in config.get("rulesets", [])]
@@ -112,6 +112,19 @@ def check(config, events, live=None, nticks=None, identity=True, excused=None):
         for ri, r in enumerate(rulesets):
             rruns = [e for e in runs if id2rs[e["id"]][0] == ri]
             rpre = [e for e in preruns if id2rs[e["id"]][0] == ri]
+            if disabled and ti in disabled.get(r.name, ()):
+                # disable-on-drop-in and a drop-in targets the ruleset: the base does not act (C13). Its per-cgroup instances are
+                # still bound to their cgroups: one whose cgroup is gone on such a tick is gone, whatever comes back later is new
+                stats["disabled_ticks"] += 1
+                if rruns:
+                    bad("C13", "disabled-base-ran", "", "tick %d ruleset %s is disabled by a drop-in but ran %s" % (ti, r.name, sorted({e["id"] for e in rruns})))
+                if r.cgroup is not None and live and r.name in live:
+                    for (sri, cg) in list(states.keys()):
+                        if sri == ri and cg not in live[r.name][ti]:
+                            del states[(sri, cg)]
+                            stats["inst_dropped"] += 1
+                            stats["inst_dropped_while_disabled"] += 1
+                continue
             if r.cgroup is None:
                 keys = [None]
             else:
